@@ -360,6 +360,37 @@ func runC12(c *Ctx) {
 			fmt.Sprintf("an entry of currentQueries is deleted under a key other than the index of the result just received (%d of %d deletes): a later result of that request is looked up with the plain form at %s and lands on batch 0", len(badDel), len(dels), join(c.ats(plain))), c.ats(badDel)...)
 	})
 
+	c.rule("C12.G2", attemptBoundedDoc, func() { c.attemptBounded() })
+	c.rule("C12.O5", "an idle batch still gets its verdict: the idle timer's callback carries the generation that was current when the callback was made, and the dispatcher ignores wakes of any other generation; so wherever the dispatcher moves a batch's progressGen on, a new callback (time.AfterFunc) is made before the function returns - a timer that is merely Reset keeps posting the old generation and the batch never times out once it has progressed", func() {
+		fn := c.fn(fnDispatch)
+		afterFunc := c.funcObj("time", "AfterFunc")
+		isGen := func(in ssa.Instruction) bool {
+			st, ok := in.(*ssa.Store)
+			if !ok {
+				return false
+			}
+			fa, ok := st.Addr.(*ssa.FieldAddr)
+			if !ok {
+				return false
+			}
+			f := ir.FieldOfAddr(fa)
+			return f != nil && c.on(f) == "progressGen"
+		}
+		n := 0
+		for _, f := range append([]*ssa.Function{fn}, fn.AnonFuncs...) {
+			var starts []start
+			for _, st := range find(f, isGen) {
+				starts = append(starts, afterInstr(c, st))
+			}
+			if len(starts) == 0 {
+				continue
+			}
+			n += len(starts)
+			c.mustFollow(f, "progressGen moved on", starts, callTo(afterFunc), "time.AfterFunc (a callback carrying the new generation)", nil, 1)
+		}
+		c.verdict(n >= 1, c.nm(fn)+" | the idle generation is moved on somewhere", c.P.Pos(fn.Pos()), fmt.Sprintf("%d store(s) to progressGen", n), "progressGen is never moved on: a wake left over from an earlier idle window counts as current")
+	})
+
 	c.rule("C12.O3", workerPerPeerDoc, func() { c.workerPerPeer() })
 
 	c.rule("C12.O4", "a job is never handed to a dead worker: the dispatcher's blocking hand-over (the select that sends on worker.NewJob()) also waits on that worker's exit signal (activeWorker.onExit), and on that arm forgets the worker and moves on; a peer that disconnected between jobs would otherwise block the dispatcher, and every batch with it, until shutdown", func() {
@@ -619,4 +650,66 @@ func (c *Ctx) batchRendezvous() {
 		})
 	}
 	c.verdict(okv && n >= 1, "query.peerWorkManager.newBatches | made without capacity", "", fmt.Sprintf("%d allocation(s), all unbuffered", n), "peerWorkManager.newBatches is (or may be) a buffered channel: Query's send succeeds while the batch is still in the buffer; when the dispatcher exits, its shutdown sweep only answers registered batches and the buffered ones never get a verdict", sites...)
+}
+
+const attemptBoundedDoc = "an unanswered request is given to another peer: inside worker.Run's response loop the attempt timer is armed anew (time.NewTimer / Timer.Reset / time.After) only behind progress.Progressed = true; a message the handler did not count as progress never extends the attempt, so a peer that answers with anything else still times out and the request is re-issued"
+
+// attemptBounded: see attemptBoundedDoc (C12.G2, also C06.O3).
+func (c *Ctx) attemptBounded() {
+	fn := c.fn(fnWRun)
+	handle := c.field("query", "Request", "HandleResp")
+	prog := c.field("query", "Progress", "Progressed")
+	// the response loop: innermost loop around the HandleResp call
+	var loop *ssa.BasicBlock
+	ir.Instrs(fn, func(in ssa.Instruction) {
+		call, ok := in.(*ssa.Call)
+		if !ok || call.Call.IsInvoke() || call.Call.StaticCallee() != nil {
+			return
+		}
+		if loadsField(handle)(call.Call.Value) {
+			loop = ir.LoopHeaderOf(in.Block())
+		}
+	})
+	construct := c.nm(fn) + " | the attempt timer is re-armed only on progress"
+	if loop == nil {
+		c.fail(construct, c.P.Pos(fn.Pos()), "no loop around the job.HandleResp call")
+		return
+	}
+	inLoop := ir.LoopBlocks(loop)
+	newTimer := c.funcObj("time", "NewTimer")
+	after := c.funcObj("time", "After")
+	afterFunc := c.funcObj("time", "AfterFunc")
+	reset := c.method("time", "Timer", "Reset")
+	var arms []ssa.Instruction
+	for _, in := range find(fn, callTo(newTimer, after, afterFunc, reset)) {
+		if inLoop[in.Block()] {
+			arms = append(arms, in)
+		}
+	}
+	var vals []ssa.Instruction
+	ir.Instrs(fn, func(in ssa.Instruction) {
+		if f, ok := in.(*ssa.Field); ok && ir.FieldOfValue(f) == prog {
+			vals = append(vals, in)
+		}
+		if u, ok := in.(*ssa.UnOp); ok && u.Op == token.MUL {
+			if fa, ok := u.X.(*ssa.FieldAddr); ok && ir.FieldOfAddr(fa) == prog {
+				vals = append(vals, in)
+			}
+		}
+	})
+	g := guard{name: "progress.Progressed = true", found: len(vals)}
+	for _, in := range vals {
+		for _, b := range ir.TrueBranches(in.(ssa.Value)) {
+			if b.Pol < 0 {
+				continue
+			}
+			g.sites = append(g.sites, guardSite{b, in})
+		}
+	}
+	if len(arms) == 0 {
+		// the attempt is never extended: nothing to protect
+		c.verdict(true, construct, c.P.Pos(fn.Pos()), "the response loop never re-arms the timer", "")
+		return
+	}
+	c.guarded(fn, g, 1, "re-arm the attempt timer", arms, 1, gDominate)
 }
